@@ -19,6 +19,7 @@ import (
 	"testing"
 
 	"github.com/elastos/Elastos.ELA/common"
+	"github.com/elastos/Elastos.ELA/common/config"
 	"github.com/elastos/Elastos.ELA/core"
 	"github.com/elastos/Elastos.ELA/core/transaction"
 	ctypes "github.com/elastos/Elastos.ELA/core/types/common"
@@ -498,6 +499,15 @@ func TestConfig(t *testing.T) {
 		} else {
 			if cfg.CrossChainUTXOFreezeHeight != polkit.Disabled || cfg.CrossChainUTXORestrictionHeight != polkit.Disabled {
 				sig = "C31:SetupConfig:" + string(cls) + ":policy-not-disabled"
+			}
+		}
+		if sig == "" {
+			// the node reads its parameters through three handles: the returned value, config.Parameters, config.DefaultParams
+			for name, v := range map[string]*config.Configuration{"config.Parameters": config.Parameters, "config.DefaultParams": &config.DefaultParams} {
+				if v == nil || v.CrossChainUTXOFreezeHeight != cfg.CrossChainUTXOFreezeHeight ||
+					v.CrossChainUTXORestrictionHeight != cfg.CrossChainUTXORestrictionHeight {
+					sig = "C31:SetupConfig:" + name + ":differs-from-returned-configuration"
+				}
 			}
 		}
 		if sig == "" {
